@@ -1,1 +1,124 @@
-fn main() {}
+//! I->S recorder for IanaParams.tla (X14): random codes written by every
+//! writer and random texts (case-mangled mnemonics, generic forms with long /
+//! signed / padded numbers, written forms with a character changed, junk) read
+//! by every reader of every IANA type, one event per call.
+//! usage: record_iana <trace.ndjson> <seed> <events>
+#[path = "../zf.rs"]
+mod zf;
+#[path = "../iana.rs"]
+mod iana;
+use domain::base::iana::*;
+use iana::*;
+use serde_json::{json, Map, Value};
+use std::str::FromStr;
+use verif_harness::common::*;
+
+const TYPES: &[&str] = &["Rtype", "Class", "SvcParamKey", "ExtendedErrorCode", "Opcode", "OptionCode", "TsigRcode",
+    "SecurityAlgorithm", "DigestAlgorithm", "Nsec3HashAlgorithm", "ZonemdScheme", "ZonemdAlgorithm",
+    "TlsaCertificateUsage", "TlsaSelector", "TlsaMatchingType", "SshfpAlgorithm", "SshfpType",
+    "IpseckeyAlgorithm", "IpseckeyGatewayType", "Rcode", "OptRcode", "RType", "RClass"];
+
+fn max_of(ty: &str) -> u32 {
+    match ty {
+        "Rcode" => 15,
+        "OptRcode" => 4095,
+        "Rtype" | "Class" | "SvcParamKey" | "ExtendedErrorCode" | "OptionCode" | "TsigRcode" | "RType" | "RClass" => 65535,
+        _ => 255,
+    }
+}
+
+fn pick_code(rng: &mut Rng, ty: &str) -> u32 {
+    let max = max_of(ty);
+    match rng.below(4) {
+        0 => rng.below(70) as u32 % (max + 1),
+        1 => (max - (rng.below(20) as u32).min(max)) as u32,
+        2 => [249u32, 250, 255, 256, 259, 260, 32768, 32769, 26946, 4095, 4096, 23, 16][rng.below(13) as usize] % (max + 1),
+        _ => rng.below(max as u64 + 1) as u32,
+    }
+}
+
+fn write_ev<T: Iana>(ty: &str, c: u32) -> Value {
+    let o = code_obs::<T>(ty, c);
+    let mut e = Map::new();
+    e.insert("ev".into(), json!("write"));
+    e.insert("ty".into(), json!(ty));
+    e.insert("c".into(), json!(c));
+    for k in ["display", "mn", "token", "ser"] {
+        if let Some(v) = o.get(k) { e.insert(k.into(), v.clone()); }
+    }
+    Value::Object(e)
+}
+
+fn display_of<T: Iana>(_ty: &str, c: u32) -> (String, Option<String>) {
+    let v = T::mk(c);
+    (format!("{}", v), v.mn().map(|m| String::from_utf8_lossy(m).to_string()))
+}
+
+fn mangle(rng: &mut Rng, s: &str) -> String {
+    s.chars().map(|c| match rng.below(3) { 0 => c.to_ascii_lowercase(), 1 => c.to_ascii_uppercase(), _ => c }).collect()
+}
+
+fn digits(rng: &mut Rng) -> String {
+    let mut s = String::new();
+    match rng.below(8) { 0 => s.push('+'), 1 => s.push('-'), 2 => s.push_str("000"), _ => {} }
+    let n = match rng.below(5) { 0 => 0, 1 => 1 + rng.below(3), 2 => 4 + rng.below(2), 3 => 6 + rng.below(6), _ => 18 + rng.below(8) };
+    for _ in 0..n { s.push((b'0' + rng.below(10) as u8) as char); }
+    if rng.chance(1, 12) { s.push(*rng.pick(&['x', ' ', '\u{e9}', '\0', '+', '.'])); }
+    s
+}
+
+fn main() {
+    let args: Vec<String> = std::env::args().collect();
+    let path = args.get(1).expect("trace path");
+    let seed: u64 = args.get(2).and_then(|s| s.parse().ok()).unwrap_or_else(seed);
+    let n: u64 = args.get(3).and_then(|s| s.parse().ok()).unwrap_or(2000);
+    quiet_panics();
+    let mut rng = Rng::new(seed);
+    let mut tw = TraceWriter::create(path);
+    for _ in 0..n {
+        let ty = *rng.pick(TYPES);
+        let c = pick_code(&mut rng, ty);
+        let (style, prefix) = style_of(ty);
+        if rng.chance(2, 5) || style == "newdisp" {
+            let ev = match ty {
+                "Rcode" => { let o = rcode_obs(c); json!({"ev": "write", "ty": ty, "c": c, "display": o["display"], "mn": o["mn"], "ser": o["ser"]}) }
+                "OptRcode" => { let o = optrcode_obs(c); json!({"ev": "write", "ty": ty, "c": c, "display": o["display"], "mn": o["mn"]}) }
+                "RType" | "RClass" => { let o = new_obs(ty, c); json!({"ev": "write", "ty": ty, "c": c, "display": o["display"]}) }
+                _ => with_iana!(ty, write_ev, ty, c).unwrap(),
+            };
+            tw.event(ev);
+            continue;
+        }
+        // a text
+        let (disp, mn) = match ty {
+            "Rcode" => { let v = Rcode::masked_from_int(c as u8); (format!("{}", v), v.to_mnemonic_str().map(|s| s.to_string())) }
+            "OptRcode" => { let v = OptRcode::masked_from_int(c as u16); (format!("{}", v), v.to_mnemonic_str().map(|s| s.to_string())) }
+            _ => with_iana!(ty, display_of, ty, c).unwrap(),
+        };
+        let rcode = style == "rcode";
+        let text = match rng.below(7) {
+            0 => disp.clone(),
+            1 => if rcode { disp.clone() } else { mangle(&mut rng, &disp) },
+            2 => match &mn { Some(m) if !rcode => mangle(&mut rng, m), Some(m) => m.clone(), None => disp.clone() },
+            3 => format!("{}{}", if rng.chance(1, 2) { mangle(&mut rng, prefix) } else { prefix.to_string() }, digits(&mut rng)),
+            4 => format!("{}{}", prefix, c),
+            5 => { let mut t = mn.clone().unwrap_or(disp.clone()); t.push(*rng.pick(&['1', 'X', '-', ' '])); t }
+            _ => digits(&mut rng),
+        };
+        let ev = match ty {
+            "Rcode" | "OptRcode" => { let o = rcode_text_obs(ty, &text); json!({"ev": "read", "ty": ty, "t": chars(&text), "fromstr": o["fromstr"]}) }
+            _ => {
+                let o = with_iana!(ty, text_obs, ty, &text).unwrap();
+                if o.get("routes").is_some() {
+                    eprintln!("ROUTES-DISAGREE {}", o);
+                    std::process::exit(3);
+                }
+                json!({"ev": "read", "ty": ty, "t": chars(&text), "fromstr": o["fromstr"], "mn": o["mn"], "de": o["de"]})
+            }
+        };
+        tw.event(ev);
+    }
+    let n = tw.finish();
+    println!("recorded {} events", n);
+    let _ = Rtype::from_str("A");
+}
